@@ -36,7 +36,8 @@ Proof.
     { simpl. rewrite Ho, Hm. simpl. rewrite Ht, Z.eqb_refl, Hp, Z.eqb_refl. reflexivity. }
     cbn [length repeat trace_from exec_from map app]. rewrite E0. simpl.
     split; [reflexivity|]. unfold upd. rewrite !Z.eqb_refl.
-    repeat split; auto; destruct (Z.eqb_spec x t); congruence.
+    split; [reflexivity|]. split; [reflexivity|].
+    repeat split; simpl; auto; destruct (Z.eqb_spec x t); congruence.
   - destruct (Hf j d (or_introl eq_refl)) as [Hdt Hdp].
     set (s1 := fst (step s (Take t))).
     assert (E1 : step s (Take t) =
@@ -47,7 +48,7 @@ Proof.
     assert (Hm1 : s_map s1 t = Some (front ++ (i, c) :: back)).
     { unfold s1. rewrite E1. simpl. unfold upd. rewrite Z.eqb_refl. reflexivity. }
     assert (Hf1 : forall j' d', In (j', d') front -> c_trace d' = t /\ c_prompt d' <> n)
-      by (intros; apply Hf; right; assumption).
+      by (intros j' d' Hin; apply (Hf j' d'); right; assumption).
     destruct (IH s1 t n i c back Ho1 Hm1 Ht Hp Hf1) as (A & B & C' & D).
     assert (F1 : frame t s s1).
     { unfold s1. rewrite E1. repeat split; simpl; auto. unfold upd. destruct (Z.eqb_spec x t); congruence. }
@@ -57,4 +58,116 @@ Proof.
     + exact B.
     + exact C'.
     + eapply frame_trans; eauto.
+Qed.
+
+(** the same for a reachable state: the trace-number side condition is an invariant *)
+Theorem genuine_answer_executed : forall ls t n front i c back,
+  s_open (final ls) t = Some n ->
+  s_map (final ls) t = Some (front ++ (i, c) :: back) ->
+  c_prompt c = n ->
+  (forall j d, In (j, d) front -> c_prompt d <> n) ->
+  let k := S (length front) in
+  let ls' := ls ++ repeat (Take t) k in
+  exists tail,
+    trace ls' = trace ls ++ tail /\
+    map fst tail = repeat (Take t) k /\
+    map snd tail = map (discard_out n) front ++ [OExec n i c] /\
+    s_open (final ls') t = None /\ s_map (final ls') t = Some back /\
+    frame t (final ls) (final ls').
+Proof.
+  intros ls t n front i c back Ho Hm Hp Hf k ls'.
+  pose proof (Inv_reach ls) as I.
+  assert (Ht : c_trace c = t).
+  { apply (i_q _ _ I t _ i c Hm). apply in_or_app. right. left. reflexivity. }
+  assert (Hf' : forall j d, In (j, d) front -> c_trace d = t /\ c_prompt d <> n).
+  { intros j d Hin. split; [|eapply Hf; eauto].
+    apply (i_q _ _ I t _ j d Hm). apply in_or_app. left. assumption. }
+  destruct (take_run front (final ls) t n i c back Ho Hm Ht Hp Hf') as (A & B & C' & D).
+  exists (trace_from (final ls) (repeat (Take t) k)).
+  unfold ls', trace, final. rewrite trace_from_app, exec_from_app. fold (final ls).
+  split; [reflexivity|]. split; [|split; [exact A|split; [exact B|split; [exact C'|exact D]]]].
+  clear. generalize (final ls). induction (repeat (Take t) k); intros; simpl; [reflexivity|]. f_equal. apply IHl.
+Qed.
+
+(** ---- the prompt counter and the prompts opened, as functions of the history *)
+
+Lemma opens_snoc_other tr l o : (forall t, l <> OpenPrompt t) -> opens (tr ++ [(l, o)]) = opens tr.
+Proof.
+  intros H. rewrite opens_app. destruct l; simpl; try apply app_nil_r. exfalso. eapply H. reflexivity.
+Qed.
+
+Lemma step_ctr_other s l : (forall t, l <> OpenPrompt t) -> s_ctr (fst (step s l)) = s_ctr s.
+Proof.
+  intros H. destruct l; simpl.
+  - reflexivity.
+  - destruct (s_in s) as [|[]]; [reflexivity|]. destruct (s_map s (c_trace c)); reflexivity.
+  - destruct (s_map s t); reflexivity.
+  - destruct (s_map s t); [destruct (s_open s t)|]; reflexivity.
+  - exfalso. eapply H. reflexivity.
+  - destruct (s_open s t); [|reflexivity]. destruct (s_map s t) as [[|[]]|]; try reflexivity.
+    destruct (negb (c_trace c =? t)); [reflexivity|]. destruct (c_prompt c =? z); reflexivity.
+Qed.
+
+Lemma ctr_opens : forall ls,
+  s_ctr (final ls) = 1 + Z.of_nat (length (opens (trace ls))) /\
+  forall n, 1 <= n < s_ctr (final ls) -> exists t, In (t, n) (opens (trace ls)).
+Proof.
+  induction ls using rev_ind; [split; [reflexivity|simpl; intros; lia]|].
+  destruct IHls as [IH1 IH2]. rewrite trace_snoc, final_snoc.
+  destruct x as [c| |t|t|t|t];
+    try (rewrite opens_snoc_other, step_ctr_other by (intros; discriminate); split; assumption).
+  cbn -[Z.add Z.of_nat length opens]. destruct (s_map (final ls) t); [destruct (s_open (final ls) t)|];
+    cbn -[Z.add Z.of_nat length opens];
+    try (rewrite opens_app; cbn -[Z.add Z.of_nat length]; rewrite app_nil_r; split; assumption).
+  rewrite opens_app, app_length. cbn -[Z.add Z.of_nat]. split; [lia|].
+  intros n Hn. destruct (Z.eq_dec n (s_ctr (final ls))) as [->|Hne].
+  - exists t. apply in_or_app. right. left. reflexivity.
+  - destruct (IH2 n) as [t' Ht']; [lia|]. exists t'. apply in_or_app. left. assumption.
+Qed.
+
+(** ---- an opened prompt is closed or still open *)
+
+Lemma step_open_other s l :
+  (forall t, l <> OpenPrompt t) -> (forall t, l <> Take t) -> s_open (fst (step s l)) = s_open s.
+Proof.
+  intros H1 H2. destruct l; simpl.
+  - reflexivity.
+  - destruct (s_in s) as [|[]]; [reflexivity|]. destruct (s_map s (c_trace c)); reflexivity.
+  - destruct (s_map s t); reflexivity.
+  - destruct (s_map s t); [destruct (s_open s t)|]; reflexivity.
+  - exfalso. eapply H1. reflexivity.
+  - exfalso. eapply H2. reflexivity.
+Qed.
+
+Lemma exec_prompts_snoc_other tr l o : (forall t, l <> Take t) -> exec_prompts (tr ++ [(l, o)]) = exec_prompts tr.
+Proof.
+  intros H. rewrite exec_prompts_app. destruct l; simpl; try apply app_nil_r. exfalso. eapply H. reflexivity.
+Qed.
+
+Lemma opened_closed_or_open : forall ls t n,
+  In (t, n) (opens (trace ls)) -> In n (exec_prompts (trace ls)) \/ s_open (final ls) t = Some n.
+Proof.
+  induction ls using rev_ind; intros t n Hin; [contradiction|].
+  rewrite trace_snoc, final_snoc in *. pose proof (Inv_reach ls) as I.
+  destruct x as [c| |t0|t0|t0|t0];
+    try (rewrite opens_snoc_other in Hin by (intros; discriminate);
+         rewrite exec_prompts_snoc_other, step_open_other by (intros; discriminate); auto).
+  - (* OpenPrompt *)
+    rewrite exec_prompts_snoc_other by (intros; discriminate). rewrite opens_app in Hin. simpl in *.
+    destruct (s_map (final ls) t0) eqn:Em; [destruct (s_open (final ls) t0) eqn:Eo|]; simpl in *;
+      rewrite ?app_nil_r in Hin; auto.
+    apply in_app_or in Hin. destruct Hin as [Hin|[Hin|[]]].
+    + destruct (IHls _ _ Hin) as [H|H]; auto. right. unfold upd. destruct (Z.eqb_spec t t0); [congruence|assumption].
+    + inversion Hin; subst. right. unfold upd. rewrite Z.eqb_refl. reflexivity.
+  - (* Take *)
+    rewrite opens_snoc_other in Hin by (intros; discriminate). destruct (IHls _ _ Hin) as [H|H].
+    + left. rewrite exec_prompts_app. apply in_or_app. left. assumption.
+    + rewrite exec_prompts_app. simpl. destruct (s_open (final ls) t0) as [p|] eqn:Eo; [|simpl; rewrite app_nil_r; auto].
+      destruct (s_map (final ls) t0) as [[|[i c] r]|] eqn:Em; try (simpl; rewrite app_nil_r; auto).
+      assert (Ht : c_trace c = t0) by (apply (i_q _ _ I t0 _ i c Em); left; reflexivity).
+      rewrite Ht, Z.eqb_refl. simpl. destruct (Z.eqb_spec (c_prompt c) p); simpl.
+      * destruct (Z.eq_dec t t0) as [->|Hne].
+        -- left. apply in_or_app. right. left. unfold exec_prompts. simpl. congruence.
+        -- right. unfold upd. destruct (Z.eqb_spec t t0); [contradiction|assumption].
+      * rewrite app_nil_r. auto.
 Qed.
